@@ -30,18 +30,6 @@ from . import config
 logger = logging.getLogger("bumpver.vcs")
 
 
-BRANCH_PATTERN = r"""
-    (?P<is_current>\*)?
-    \s+
-    (?P<branch>[\S]+)
-    \s+
-    [0-9a-f]+
-    \s+
-    \[(?P<remote>[^/]+)/[^\]]+\]
-"""
-
-BRANCH_RE = re.compile(BRANCH_PATTERN, flags=re.VERBOSE)
-
 # "<orig> -> <path>" of git status, where either path may be quoted
 RENAME_RE = re.compile(r'^\s*("(?:[^"\\]|\\.)*"|.*?) -> ("(?:[^"\\]|\\.)*"|.*)$')
 
@@ -60,7 +48,7 @@ VCS_SUBCOMMANDS_BY_NAME = {
         'push_tag'      : "git push {remote} --follow-tags {tag} HEAD",
         'push'          : "git push {remote} HEAD",
         'show_remotes'  : "git config --get remote.origin.url",
-        'ls_branches'   : "git branch -vv",
+        'ls_branches'   : "git branch --format=%(HEAD)%(upstream:remotename)",
     },
     'hg': {
         'is_usable'     : "hg root",
@@ -165,12 +153,13 @@ class VCSAPI:
         # pylint:disable=broad-except;  Not sure how to anticipate all cases.
         try:
             if self.name == 'git':
+                # NOTE: one line per branch: "*<remote>" for the current branch
+                #   (nothing that could be mistaken for it, such as a commit subject)
                 output = self('ls_branches')
 
-                for match in BRANCH_RE.finditer(output):
-                    branch_info = match.groupdict()
-                    if branch_info['is_current']:
-                        return branch_info['remote']
+                for line in output.split("\n"):
+                    if line.startswith("*") and line[1:].strip():
+                        return line[1:].strip()
 
             output = self('show_remotes')
             if output.strip() == "":
